@@ -54,9 +54,12 @@ struct Result {
 };
 
 void init();                                        // once per process (maps, pristine snapshot)
-void reset_library_globals();                       // restore libeav's writable .data/.bss
+void reset_library_globals();                       // a new simulated process: link-time image of libeav's writable statics, then its constructors
 size_t library_writable_bytes();
-bool library_globals_dirty();                       // differ from pristine right now?
+bool library_globals_dirty();                       // differ from what they were when the simulated process started?
+size_t library_constructors();                      // entries in the library's (renamed) constructor table
+size_t library_exit_handlers();                     // destructor table entries + atexit/on_exit handlers registered so far
+size_t run_library_exit();                          // what exit() does to the library: handlers newest first, then destructors
 
 typedef void (*thread_fn)(int tid, void *arg);
 // run nthreads simulated threads to completion under the scheduler
@@ -76,6 +79,11 @@ void leave_sut();
 bool thread_aborted();                              // this thread hit abort()/assert inside the library
 // does p point into the stack / thread-local block of a simulated thread of the last run that has been joined? (-1: no)
 int finished_thread_owning(const void *p);
+
+// harness-level handoff between simulated threads: post(k) marks k done (release); wait(k) blocks the calling simulated
+// thread until k was posted (acquire).  No-ops outside a concurrent run.
+void post(const void *k);
+void wait(const void *k);
 
 // sequential (unscheduled) mode for reference runs: callbacks count steps only
 void begin_sequential();
